@@ -1,4 +1,4 @@
 SPECIFICATION Spec
-CONSTANTS SS = 4 Lens = {0, 5} AliasFix = TRUE OmitFix = TRUE HdrLimit = "none"
+CONSTANTS SS = 4 Lens = {0, 5} AliasFix = TRUE OmitFix = TRUE WipesKey = FALSE HdrLimit = "none"
 INVARIANTS NotBad
 CHECK_DEADLOCK FALSE
